@@ -348,44 +348,38 @@ class AbiView:
 # ------------------------------------------------------------------------------------------------
 # Trace validation with continue-after-rejection (Trace_AbiCodec / Trace_DataSection)
 # ------------------------------------------------------------------------------------------------
-def parse_unmatched(out, nints):
-    """<<"FIRST-UNMATCHED", int{nints}, {set of strings}, "json string">> -- TLC may wrap the tuple over lines"""
-    pat = r'<<\s*"FIRST-UNMATCHED",\s*' + r"".join(r"(\d+),\s*" for _ in range(nints)) + r'(\{[^}]*\}),\s*"(.*?)"\s*>>'
-    m = re.search(pat, out, re.S)
-    if not m:
-        return None
-    failed = re.sub(r"\s+", "", m.group(nints + 1))
-    return {"ints": [int(m.group(i + 1)) for i in range(nints)], "failed": failed,
-            "expected": m.group(nints + 2).replace('\\"', '"')}
+def parse_rejects(out):
+    """<<"REJECT", "json">> lines printed by a trace spec (TLC may wrap the tuple over lines) -> list of dicts"""
+    res = []
+    for m in re.finditer(r'<<\s*"REJECT",\s*"(.*?)"\s*>>', out, re.S):
+        body = m.group(1).replace('\\"', '"').replace("\\\\", "\\")
+        res.append(json.loads(body))
+    return res
 
 
 def validate_trace(ctx, module, cfg, records, name, shard=1500, par=4, timeout=3600):
-    """Run the trace spec over `records` in shards; after a rejection, note it and continue with the rest.
-    Returns (validated_count, rejections) with rejections = [{"rec": record, "failed": str, "expected": str}]."""
-    import os
+    """Run the trace spec over `records` in shards.  The spec decides every record, prints the rejected ones and
+    goes on.  Returns (accepted_count, rejections) with rejections = [{"rec", "failed": '{"a","b"}', "expected"}]."""
     from concurrent.futures import ThreadPoolExecutor
     from lib.common import write_ndjson, ToolError
 
     def one(arg):
         idx, recs = arg
-        ok, rej, rnd = 0, [], 0
-        while recs:
-            rnd += 1
-            tp = os.path.join(ctx.work, "%s-%d-%d.ndjson" % (name, idx, rnd))
-            write_ndjson(tp, recs)
-            tr = ctx.tlc_trace(module, cfg, tp, name="%s-%d-%d" % (name, idx, rnd), timeout=timeout)
-            os.remove(tp)
-            if tr.violated is None:
-                ok += len(recs)
-                break
-            m = parse_unmatched(tr.out, 1)
-            if tr.violated != "postcondition" or not m:
-                raise ToolError("%s failed unexpectedly (%s); see work/%s/tlc-%s-%d-%d.out" % (module, tr.violated, ctx.pid, name, idx, rnd))
-            k = m["ints"][0]
-            ok += k - 1
-            rej.append({"rec": recs[k - 1], "failed": m["failed"], "expected": m["expected"]})
-            recs = recs[k:]
-        return ok, rej
+        tp = os.path.join(ctx.work, "%s-%d.ndjson" % (name, idx))
+        write_ndjson(tp, recs)
+        tr = ctx.tlc_trace(module, cfg, tp, name="%s-%d" % (name, idx), timeout=timeout)
+        os.remove(tp)
+        rejs = parse_rejects(tr.out)
+        m = re.search(r'<<\s*"REJECTED",\s*(\d+)\s*>>', tr.out)
+        if tr.violated is None:
+            if rejs:
+                raise ToolError("%s printed rejections but accepted the trace" % module)
+            return len(recs), []
+        if tr.violated != "postcondition" or "FIRST-UNMATCHED" in tr.out or not m or int(m.group(1)) != len(rejs):
+            raise ToolError("%s failed unexpectedly (%s); see work/%s/tlc-%s-%d.out" % (module, tr.violated, ctx.pid, name, idx))
+        rej = [{"rec": recs[r["index"] - 1], "failed": "{" + ",".join('"%s"' % f for f in sorted(r["failed"])) + "}",
+                "expected": r["expected"], "run": r.get("run")} for r in rejs]
+        return len(recs) - len(rejs), rej
 
     shards = [(i, records[p:p + shard]) for i, p in enumerate(range(0, len(records), shard))]
     with ThreadPoolExecutor(max_workers=par) as ex:
@@ -545,7 +539,7 @@ def pick_invalid(r, nbool=2, ntag=2, ntrunc=1):
         xs = sorted([iv for iv in r["invalid"] if iv["kind"] == kind], key=lambda iv: (iv["len"], iv["bytes"]))
         if kind == "truncated":
             xs = [iv for iv in xs if iv["len"] > 0] or xs       # prefer a non-empty proper prefix
-            xs = xs[-n:]
+            xs = xs[-n:] if n else []
         else:
             xs = xs[:: max(1, len(xs) // n)][:n] if xs else []
         out += xs
@@ -568,7 +562,7 @@ def c09_packages(recs, prefix, per_pkg=40):
     return pkgs
 
 
-def c10_packages(recs, prefix, per_pkg=60, class_group=6):
+def c10_packages(recs, prefix, per_pkg=60, class_group=6, ntrunc=1):
     """Class probes (several types per test), invalid decodes, and Case tests of the trivially en/decodable types."""
     pkgs = []
     for p in range(0, len(recs), per_pkg):
@@ -581,7 +575,7 @@ def c10_packages(recs, prefix, per_pkg=60, class_group=6):
             tests.append("#[test]\nfn %s() {\n%s}\n" % (name, body))
             items.append({"ev": "ClassGroup", "test": name, "ts": [r["t"] for r in grp]})
         for ti, r in enumerate(chunk):
-            for j, iv in enumerate(pick_invalid(r)):
+            for j, iv in enumerate(pick_invalid(r, ntrunc=ntrunc)):
                 name = "i%d_%d" % (ti, j)
                 tests.append(invalid_test(d, name, r["t"], iv["bytes"], iv["len"]))
                 items.append({"ev": "Invalid", "test": name, "kind": iv["kind"], "t": r["t"], "bytes": iv["bytes"], "len": iv["len"]})
